@@ -136,7 +136,7 @@ def gen_harness(w, modprefix, kinds=None):
             out += ['    #[kani::proof]', '    fn %s() {' % h] + lines + ['    }']
             names.append(h)
     # ---- dispatch through vftables
-    out += ['    static mut LOG_ID: usize = 0;', '    static mut LOG_THIS: usize = 0;', '    static mut LOG_ARGS: [u64; 4] = [0; 4];',
+    out += ['    static mut LOG_ID: usize = 0;', '    static mut LOG_THIS: usize = 0;', '    static mut LOG_ARGS: [u64; 8] = [0; 8];',
             '    static mut LOG_CALLS: usize = 0;',
             '    // ---- absolute addresses (see rewrite_absolute_addresses)',
             '    pub static mut LOG_ADDR: usize = 0;', '    pub static mut LOG_ADDR_USES: usize = 0;', '    pub static mut NEXT_FN: usize = 0;',
